@@ -16,7 +16,7 @@ from ..fa import FA
 from ..loader import AnalysisError
 from .valeq import check_typed_identity
 from .ladders import extract_ladder, check_ladder_order, repo_subclass_pairs
-from .c16 import (FlatInit, canon_conj, conds, fexpand, ftext, is_copy_of, lit_expr, map_shape, origin, same_def, single_def, strip_cast, _ref_name)
+from .c16 import (FlatInit, outliving_state_reads, canon_conj, conds, fexpand, ftext, is_copy_of, lit_expr, map_shape, origin, same_def, single_def, strip_cast, _ref_name)
 
 AH = "reference.ArgumentHasher"
 FRA = "reference.FunctionReferenceWithArguments"
@@ -1024,12 +1024,21 @@ def check(ck):
     EXIT = fl.exit
     EMPTY = ("()", "[]", "{}", "tuple()", "list()", "dict()", "tuple([])", "tuple(())")
 
+    kept_why = {}
+
     def normalised_field(fa, field, src):
         ds = fa.df.reaching(fa.cfg.exit, "self." + field)
         if not ds or any(d.kind != "assign" or d.value is None for d in ds):
             return False
         n_norm = 0
         for d in ds:
+            kept = outliving_state_reads(fa, d.value, d.node)
+            if kept:
+                # made from what an earlier construction left behind (a table, a result-keeping helper): equal-comparing
+                # values of different type (1, 1.0, True) come back as whichever was seen first
+                kept_why[field] = "self.%s is answered from %s: a value that compares equal to an earlier one but differs in type (1 / 1.0 / True) " \
+                    "is stored, keyed and passed to the body as the earlier one" % (field, ", ".join(kept))
+                return False
             dp = fa.deps(d.value, d.node)
             if ("call:normalize" in dp or ("call:_decode" in dp and "call:_encode" in dp)) and ("param:" + src) in dp:
                 n_norm += 1
@@ -1039,7 +1048,7 @@ def check(ck):
 
     for field, src in (("args", "args"), ("kwargs", "kwargs"), ("context_args", "context_args")):
         ok = normalised_field(ini, field, src)
-        ck.ob(R3, ini.key(None, "normalised-" + field), ok, "self.%s holds the normalised values" % field if ok else
+        ck.ob(R3, ini.key(None, "normalised-" + field), ok, "self.%s holds the normalised values" % field if ok else kept_why.get(field) or
               "self.%s is stored without ArgumentHasher.normalize: the body sees other values than the key was computed from" % field, ini.where())
     ek = fl.ek
     # every read of the normalised fields (and every helper left as a call) sees their final values
@@ -1358,7 +1367,7 @@ def check(ck):
     fr = FA(ck, "reference.FunctionReference.__init__")
     for field, src in (("_partial_args", "partial_args"), ("_partial_kwargs", "partial_kwargs")):
         ok = normalised_field(fr, field, src)
-        ck.ob(R3, fr.key(None, "normalised" + field), ok, "partial arguments are normalised on the reference" if ok else
+        ck.ob(R3, fr.key(None, "normalised" + field), ok, "partial arguments are normalised on the reference" if ok else kept_why.get(field) or
               "self.%s is stored without normalisation" % field, fr.where())
     pn = [s for s in fr.stmts(ast.Assign) if any(A.dotted(t) == "self.parameter_names" for t in s.targets) and fr.nodes(s)]
     mf = "memento_fn" if "memento_fn" in fr.fi.params else (fr.fi.params[1] if len(fr.fi.params) > 1 else "memento_fn")
